@@ -356,6 +356,13 @@ func (h *H) do(method, path string, o reqOpt) Resp {
 							}
 						}
 						out.Link = "next(cache=" + h.tk.tokDigest(cd) + ",page=" + lu.Query().Get("page") + ")"
+						// the filter of the request travels with the link (the next page is a page of the filtered list)
+						if at := lu.Query().Get("artifactType"); at != "" {
+							if tk, ok := mtTok[at]; ok {
+								at = tk
+							}
+							out.Link = strings.TrimSuffix(out.Link, ")") + ",at=" + at + ")"
+						}
 					}
 				}
 			}
@@ -593,6 +600,15 @@ func (h *H) apply1(line string) (string, bool) {
 				v += "; charset=utf-8"
 			case "upper":
 				v = strings.ToUpper(v)
+			// forms that a strict media type parser rejects; the base type before the first ';' is what counts
+			case "dup":
+				v += "; charset=utf-8; charset=ascii"
+			case "semi":
+				v += ";"
+			case "space":
+				v = " " + v + " ; x"
+			case "badparam":
+				v += "; =bad"
 			}
 			hdr["Content-Type"] = []string{v}
 		}
